@@ -56,7 +56,7 @@ REASONED = [
 def client_fns(prog, roles):
     reach = prog.reachable_fns([roles.run_on.path])
     extra = [b.path for b in prog.fns() if re.search(r"^<params::|^params::|value::decode::Value(Inner)?::<'a>::parse_from|^<tls::|^tls::", b.path)]
-    out = set(reach) | set(extra)
+    out = (set(reach) | set(extra)) - set(getattr(prog, "absorbed_new_closures", ())) - set(getattr(prog, "absorbed_dead_closures", ()))
     return {x for x in out if not re.search(r"^resultset::|value::encode|^<resultset::|::tests::|as std::fmt::Debug|as std::clone::Clone|^MysqlShim::", x)}
 
 
@@ -112,8 +112,66 @@ def _unit_counter(body, op):
     return ndefs >= 1
 
 
+def _mapped_take_widths(prog, closure_path):
+    """for every place where the closure is handed to nom's `map(parser, closure)`: the constant k when parser is `take(k)`, else None"""
+    out = []
+    for b in prog.fns():
+        for bb, t in b.calls():
+            if "indirect" in t["func"]:
+                continue
+            for ai in range(len(t["args"])):
+                a = b.arg_origin(bb, ai)
+                if isinstance(a, tuple) and a and a[0] == "agg" and a[1] == "closure" and a[2] == closure_path:
+                    if cname(t["func"]).endswith("nom::combinator::map") and ai == 1:
+                        p0 = T.peel(b.arg_origin(bb, 0))
+                        out.append(T.const_int(p0[2][0]) if T.is_call(p0, r"nom::bytes::complete::take$") and len(p0[2]) == 1 else None)
+                    elif re.search(r"iter::Iterator::(map|for_each|try_for_each|filter_map|flat_map)$", t["func"]["path"]) and ai == 1:
+                        # items of `x.chunks_exact(k)` have exactly k elements
+                        p0 = T.peel(b.arg_origin(bb, 0))
+                        ch = T.find(p0, lambda x: T.is_call(x, r"slice::<impl \[T\]>::chunks_exact$"))
+                        out.append(T.const_int(ch[2][1]) if ch is not None and len(ch[2]) == 2 else None)
+                    else:
+                        out.append(None)
+    return out
+
+
+_PRUNED = {}
+
+
+def _const_pruned_reachable(body):
+    """blocks reachable from the entry when a switch whose discriminant folds to a constant only takes that constant's edge"""
+    key = id(body)
+    if key in _PRUNED:
+        return _PRUNED[key]
+    seen, stack = set(), [0]
+    while stack:
+        b_ = stack.pop()
+        if b_ in seen:
+            continue
+        seen.add(b_)
+        t_ = body.term(b_)
+        succ = list(body.succ[b_])
+        if t_["k"] == "switch":
+            try:
+                v_ = fold(body.origin_op(t_["discr"], b_, len(body.blocks[b_]["stmts"])))
+            except Exception:
+                v_ = None
+            c_ = _cint(v_) if v_ is not None else None
+            if c_ is not None:
+                tgt = t_["otherwise"]
+                for val, g in zip(t_["vals"], t_["tgts"]):
+                    if int(val) == c_:
+                        tgt = g
+                succ = [tgt]
+        stack.extend(x for x in succ if x not in seen)
+    _PRUNED[key] = seen
+    return seen
+
+
 def auto_discharge(body, kind, bb, t, prog):
     """Returns (True, how) when the obligation is discharged mechanically."""
+    if kind == "panic" and bb not in _const_pruned_reachable(body):
+        return True, "the block is only reached through a branch whose condition folds to the other constant (e.g. the `else` of a slice pattern on an item of chunks_exact(n))"
     if kind.startswith("assert:"):
         msg = kind[7:]
         if "PointerDereference" in msg:
@@ -176,6 +234,13 @@ def auto_discharge(body, kind, bb, t, prog):
                 n_ = T.const_int(chx[2][1]) if chx is not None else None
                 if n_ is not None and 0 <= T.const_int(ix) < n_:
                     return True, "constant index %d into an item of chunks_exact(%d)" % (T.const_int(ix), n_)
+            # `map(take(k), |s| s[i])`: inside the closure the parameter is exactly what `take(k)` yielded, k bytes — at every site that
+            # builds this closure
+            ln_of = ln[2] if isinstance(ln, tuple) and ln and ln[0] == "un" and ln[1] == "PtrMetadata" else (ln[2][0] if T.is_call(ln, r"slice::<impl \[T\]>::len$") else ln)
+            if "{closure" in body.path and T.const_int(ix) is not None and T.is_param(T.peel(ln_of), 2):
+                ks = _mapped_take_widths(prog, body.path)
+                if ks and all(k_ is not None and 0 <= T.const_int(ix) < k_ for k_ in ks):
+                    return True, "constant index %d into the %s bytes nom's take() hands to this mapping closure" % (T.const_int(ix), sorted(set(ks)))
             e = B.aff(ln).add(B.aff(ix), -1).add(Aff(-1))    # len - idx - 1 >= 0
             loopvars = {}
             for x in T.walk(ix):
@@ -219,6 +284,9 @@ def auto_discharge(body, kind, bb, t, prog):
         e = B.len_atom(recv).add(B.aff(k), -1)              # len - k >= 0
         if e.is_const() and e.c >= 0:
             return True, "split point within constant length"
+        if e.m and e.c >= 0 and all(c_ > 0 for c_ in e.m.values()) and B.prove_nonneg(e, {}):
+            # k = len - r with r an unsigned quantity: len - k = r >= 0 (the subtraction itself is a separate obligation)
+            return True, "split point = length minus an unsigned quantity (len - k = %r)" % (e,)
         for r in B.rel:
             d = e.add(r, -1)
             if d.is_const() and d.c >= 0:
@@ -245,6 +313,9 @@ def run(ctx, configs=None):
                 continue
             ctx.fn(b)
             ords = {}
+            # sites are keyed by the function that owns them, closures included: moving a panicking expression into (or out of) a
+            # closure of the same function does not make it a different site
+            owner = re.sub(r"(::\{closure#\d+\})+$", "", path)
             for kind, bb, t in ss:
                 nsites += 1
                 callee = cname(t["func"]) if t["k"] == "call" else t["msg"]
@@ -268,14 +339,14 @@ def run(ctx, configs=None):
                         reason = why
                         break
                 if reason:
-                    ctx.ob("C20.panic-obligations", True, "", fn=path, construct=kind, callee=callee, nontrivial=False)
+                    ctx.ob("C20.panic-obligations", True, "", fn=owner, construct=kind, callee=callee, nontrivial=False)
                     ctx.note("reasoned: %s %s %s: %s" % (path, kind, b.where(bb), reason))
                     continue
                 macro = (t.get("exp") or {}).get("descr")
                 ctx.ob("C20.panic-obligations", False,
                        "client-reachable panic site not discharged: %s%s in %s" % (kind, (" " + callee.split("::")[-1]) if t["k"] == "call" else "", path.split("::")[-1]) +
                        ((" (%s)" % macro) if macro else ""),
-                       fn=path, construct=kind, callee=callee, where=b.where(bb))
+                       fn=owner, construct=kind, callee=callee, where=b.where(bb))
         ctx.floor("C20.panic-obligations", "panic-capable sites in client-path functions (%s)" % cfg, nsites, 60 if cfg == "tls" else 50)
 
         # ---- nullmap is Some when examined --------------------------------------------------------
@@ -353,6 +424,11 @@ def run(ctx, configs=None):
                                 T.contains(v[2], lambda x: T.is_call(x, r"std::io::Read>::read$|^std::io::Read::read$")):
                             truth = p.blocks[i + 1] != t["tgts"][t["vals"].index("0")]
                             is_zero = truth if v[1] == "Eq" else not truth
+                            verdict = is_zero if verdict is None else verdict
+                        elif isinstance(v, tuple) and v[0] in ("okpayload", "field", "variant", "cast") and \
+                                T.contains(v, lambda x: T.is_call(x, r"std::io::Read>::read$|^std::io::Read::read$")):
+                            # the byte count itself is switched on (`match read { 0 => .. }`, `match (read, remaining) { (0, 0) => .. }`)
+                            is_zero = p.blocks[i + 1] == t["tgts"][t["vals"].index("0")]
                             verdict = is_zero if verdict is None else verdict
                 ctx.ob("C20.loop-progress", verdict is False, "the reader loop can go around after the transport returned %s bytes: a closed connection would spin" % ("0" if verdict else "an untested number of"),
                        fn=fr.path, construct="read-zero-leaves", where=fr.where(p.blocks[-1]), sample={"rule": "loop-progress/read-zero", "cycle_blocks": len(p.blocks)})
